@@ -349,3 +349,77 @@ GROUPS.append(Group('P3', 'parsing ANSI-coded input: base text is the input minu
                     '38|48|58;2;r;g;b, an empty parameter, a literal 0), separated and surrounded by texts of arbitrary length '
                     '(possibly empty, without ESC); one non-SGR sequence in the text',
                     assumes=['B1', 'SL', 'T1']))
+
+
+# ============================================================================================= P4: text without ESC (unbounded)
+from pyvc import loopcut  # noqa: E402
+import z3  # noqa: E402
+
+
+def cut_tokenizer_plain(interp, node, fr):
+    """Inductive invariant of the tokenizer's outer loop for an input without ESC:
+         self._s == s[:i]  and  self.sequences == {}  and  0 <= i <= len(s);   variant len(s) - i."""
+    from pyvc.interp import BreakSig, ContinueSig
+    c = sym.ctx()
+    self_ = fr.env['self']
+    s = fr.env['s']
+    at = sym.atoms_of(s)
+    if len(at) != 1 or at[0][0] != 'opq' or sym.s_chars(s) is not None:
+        return NotImplemented
+    n = sym.s_len(s)
+
+    def inv(i):
+        r = sym.s_eq(self_.attrs['_s'], sym.s_slice(s, 0, i))
+        if isinstance(r, sym.Approx):
+            r = r.cond
+        return b_and(r, len(self_.attrs['sequences'].keys) == 0, i_cmp('>=', i, 0), i_cmp('<=', i, n))
+    c.prove('loop-invariant-on-entry:tokenizer', inv(fr.env['i']))
+    which = c.choice(2)
+    i = c.fresh_int('i')
+    fr.env['i'] = i
+    self_.attrs['sequences'] = PDict()
+    c.assume(i_cmp('>=', i, 0))
+    c.assume(i_cmp('<=', i, n))
+    self_.attrs['_s'] = sym.s_slice(s, 0, i)
+    if which == 0:
+        c.assume(i_cmp('<', i, n))
+        if not c.feasible():
+            raise sym.Infeasible()
+        if not interp.truth(interp.eval(node.test, fr)):
+            c.fail('loop-guard-holds-inside', 'guard false although i < len(s)')
+        interp.exec_block(node.body, fr)
+        c.prove('loop-invariant-preserved:tokenizer', inv(fr.env['i']))
+        c.prove('loop-variant-decreases:tokenizer', i_cmp('>', fr.env['i'], i))
+        raise loopcut.PathEnd()
+    c.assume(i_cmp('>=', i, n))
+    if interp.truth(interp.eval(node.test, fr)):
+        c.fail('loop-guard-false-at-exit', 'guard true although i >= len(s)')
+    return None
+
+
+P4_CUTS = {('ParsedAnsiControlSequenceString.__init__', 0): cut_tokenizer_plain}
+CL_P4 = [Clause('text-kept-unchanged-and-unformatted', 'post_parse_plain_unformatted'), Clause('text-is-input', 'post_parse_text')]
+
+
+def p4_items(tier):
+    return [['set_ansi_str'], ['init']]
+
+
+def p4_task(envr, item):
+    def body(c):
+        T = c.opaque_text('T')
+        c.declare_esc_free(T)
+        s = sym.s_opaque(T)
+        if item[0] == 'set_ansi_str':
+            obj = PObj('AnsiString', {'_fmts': PDict(), '_s': ''})
+            run_contract(envr, c, 'AnsiString.set_ansi_str', obj, [s], {}, CL_P4)
+        else:
+            obj = PObj('AnsiString')
+            run_contract(envr, c, 'AnsiString.__init__', obj, [s], {}, CL_P4)
+    return ContractRun(body, CL_P4, cuts=P4_CUTS, nosumm=('AnsiString.set_ansi_str',))
+
+
+GROUPS.append(Group('P4', 'text without escape sequences is kept unchanged and unformatted (any length)', ['C02', 'C04', 'C05'], 'U',
+                    ['AnsiString.set_ansi_str', 'AnsiString.__init__', 'ParsedAnsiControlSequenceString.__init__'], p4_items,
+                    p4_task, bounds='none: any text length without ESC (tokenizer loop cut by the invariant "_s == s[:i], no '
+                    'sequences"; variant len(s) - i)'))
